@@ -30,6 +30,29 @@ CHECKS = {
         "of threads; asyncio FIFO scheduling.",
         "5/C11",
     ),
+    "C12": (
+        "exploration",
+        "differential testing against an independent RFC 6455/7692 reference decoder over grammar-generated frame "
+        "streams with one violation class injected per stream and raw byte mutations; exhaustive 1- and 2-cut "
+        "segmentation differential; retained-buffer bound sampled after every feed",
+        "Each generated stream is decoded by the real reader in one read and compared with the reference decoder under "
+        "every DON'T-CARE resolution; then re-fed under every single and double cut (exhaustive for streams <= 100 "
+        "bytes) and must give the identical outcome; retained bytes are bounded after each feed.",
+        "Trusts vlib/refws.py; DON'T-CARE classes listed in the module's ASSUMPTIONS are not decided; private buffer "
+        "names are read for the memory bound.",
+        "5/C12",
+    ),
+    "C16": (
+        "exploration",
+        "model-based testing: Hypothesis-generated histories (Set-Cookie, clock advance, clear, clear_domain, save/load) "
+        "against an RFC 6265 reference store, every URL of a host x scheme x path lattice queried after every step",
+        "After every step of a generated history filter_cookies() is compared, for every URL of the lattice, with what an "
+        "independent RFC 6265 5.3/5.4 store would attach; a value sent where the store refuses is a leak, a name "
+        "withheld where the store sends is an omission.",
+        "Trusts the reference store in checks/c16_cookies.py and the virtual clock patched into aiohttp.cookiejar; one "
+        "value per name is compared (filter_cookies returns a dict); no public-suffix list on either side.",
+        "5/C16",
+    ),
 }
 
 REASON_PENDING = "check not built yet in this round (design in DESIGN.md section 5); not claimed until it runs quietly on the unchanged tree"
